@@ -10,8 +10,8 @@ SPEC = {
              "every action generated reads, after every drop a battery of every read shape on the affected measurement, after every restart and at the end the battery on every "
              "measurement: SELECT * plain / tag filter per operator / field filter / GROUP BY tag / GROUP BY *, count,sum,min,max,first,last with and without /*+ Exact_Statistic_Query */ "
              "x tag filter x GROUP BY tag x GROUP BY time(), SHOW SERIES [FROM] [WHERE], SHOW TAG KEYS, SHOW TAG VALUES [WHERE], SHOW MEASUREMENTS - each compared with the model "
-             "(so the shapes agree with each other). A wrong read is re-run for up to 30 s; only a read that stays wrong is a violation, one that becomes right is counted as "
-             "late-<last op> with its delay (notes.late_max_ms). Non-trivial: a DROP SERIES selected a strict non-empty subset of the measurement's series, rows of a dropped series "
+             "(so the shapes agree with each other). Except right after an effective DROP SERIES (no grace), a wrong read is re-run for up to 30 s; only a read that stays wrong is a violation, one that becomes "
+             "right is counted as late-<last op> with its delay (notes.late_max_ms). Non-trivial: a DROP SERIES selected a strict non-empty subset of the measurement's series, rows of a dropped series "
              "were in a flushed file, and a read shape other than the direct tag filter was evaluated afterwards; distinct by (drop statements + where the rows lived, op list)"),
     "assumptions": ["HTTP 204 / an error-free statement result is the acknowledgement; a new (series, shard group) is awaited with an unfiltered query before it is read or dropped "
                     "(index visibility lag), again after every restart",
@@ -19,7 +19,8 @@ SPEC = {
                     "(accepted: must list the live ones, may list those ever written into the current incarnation)",
                     "DROP MEASUREMENT acts on every retention policy of the database, DROP SERIES FROM <unqualified> on the default policy only (measurement names are disjoint "
                     "between policies in the generator)",
-                    "a read that is right within 30 s of the acknowledgement is tolerated and counted (class late-drop: stale tag-filter cache, 8-10 s observed)",
+                    "after an effective DROP SERIES a wrong read fails at once (no grace period; the stale tag-filter cache defect is repaired); after DROP MEASUREMENT / RETENTION POLICY / "
+                    "DATABASE (two-phase: marked in the catalogue, removed by a 500 ms loop) and after restarts / writes a read that is right within 30 s is tolerated and counted (late-*)",
                     "no (series,time) is written twice (overwrites are the subject of C02/C09; the aggregate push-down counts a row overwritten across memtable and files twice)",
                     "reads never filter or group on a key that is not a tag of the measurement's current incarnation (the server then compares with a missing field)",
                     "known-finding classes are left out of the generated histories by construction (excluded_by_construction; one replay each under replays/C13)"],
